@@ -70,9 +70,19 @@ def run_case(case):
     given_infeasible = None
     if P.x0 is not None:
         given_infeasible = bool(np.asarray(P.cons(P.x0[None, :])).ravel()[0] > 0)
+        # the constructor moves a start that lies within 0.1% (of the hard range, in LINEAR units - a large band for
+        # log-scaled boxes) of a hard bound and checks feasibility at the moved point: such starts are not judged by
+        # the 'given start infeasible => rejected' sub-oracle (the evaluated points are still judged)
+        rngw = np.where(np.isfinite(P.ub - P.lb), P.ub - P.lb, np.inf)
+        with np.errstate(all="ignore"):
+            moved = np.any((np.isfinite(P.lb)) & (P.x0 < P.lb + 1.001e-3 * rngw)) or np.any((np.isfinite(P.ub)) & (P.x0 > P.ub - 1.001e-3 * rngw))
+        if given_infeasible and moved:
+            given_infeasible = None
     rec = C.run_monitored(case, {"C02"})
     rec["given_infeasible"] = given_infeasible
     rec["start"] = case["start"]
+    if given_infeasible is None and P.x0 is not None:
+        rec["cnt"]["C02.infeasible_starts_moved_by_constructor_not_judged"] = 1 if case["start"] == "infeasible" else 0
     if given_infeasible:
         ok = rec["status"] == "ctor-exception" and rec["exc"]["type"] == "ValueError" and rec["ncalls"] == 0
         rec["cnt"]["C02.infeasible_starts_judged"] = 1
